@@ -124,6 +124,13 @@ SCurrentAtElem(ms, e, tau) ==
                     IN [b |-> p.b, vs |-> {Minus(DecayInterp(p.r), DecayInterp(n.r))}]
   IN IF cf.cob = "none" \/ InTol(tau, raw.b, cf.tol2) THEN raw.vs ELSE {OBCur}
 
+\* pos_current_at / neg_current_at of the double-exponential synapse: the decaying / the rising component alone,
+\* each read from its own record and decayed analytically with ITS time constant between steps
+SCompAtElem(ms, e, tau, which) ==
+  LET cf == ms.cf
+      p == ParamAt(IF which = "pos" THEN ms.c1 ELSE ms.c2, e, tau, cf.tol2)
+  IN IF cf.cob = "none" \/ InTol(tau, p.b, cf.tol2) THEN {DecayInterp(p.r)} ELSE {OBCur}
+
 \* spike_at for one element (as documented: tolerance and overbound in their places)
 SSpikeAtElem(ms, e, tau) ==
   LET cf == ms.cf
@@ -139,6 +146,10 @@ SCurrentAt(ms, sel) ==
   LET E == ElemsOf(ms.spk)
   IN IF Len(sel) # E THEN Err(ms, "RuntimeError")
      ELSE {Out(ms, [t |-> "cur", v |-> c]) : c \in SeqProd([e \in 1..E |-> SCurrentAtElem(ms, e, sel[e])])}
+SCompAt(ms, sel, which) ==
+  LET E == ElemsOf(ms.spk)
+  IN IF Len(sel) # E THEN Err(ms, "RuntimeError")
+     ELSE {Out(ms, [t |-> "cur", v |-> c]) : c \in SeqProd([e \in 1..E |-> SCompAtElem(ms, e, sel[e], which)])}
 SSpikeAt(ms, sel) ==
   LET E == ElemsOf(ms.spk)
   IN IF Len(sel) # E THEN Err(ms, "RuntimeError")
@@ -170,6 +181,8 @@ SApply(ms, o) ==
     [] o.a = "spike"      -> {Out(ms, [t |-> "spk", v |-> Latest(ms.spk)])}
     [] o.a = "current_at" -> SCurrentAt(ms, o.sel)
     [] o.a = "spike_at"   -> SSpikeAt(ms, o.sel)
+    [] o.a = "pos_at"     -> SCompAt(ms, o.sel, "pos")
+    [] o.a = "neg_at"     -> SCompAt(ms, o.sel, "neg")
 
 (***************************************************************************)
 (* Abs.  as = [cf, E, hist]; hist[j][e] the input of element e at the j-th   *)
@@ -211,6 +224,18 @@ ACurAtElem(as, e, tau) ==
             ELSE StepRule(cf.smode, CurAgo(as, k + 1, e), CurAgo(as, k, e), AElapsed(b, D), D)
   IN IF cf.cob = "none" \/ InTol(tau, b, cf.tol2) THEN vs ELSE {OBCur}
 
+\* the two components of the documented difference of exponentials: Q/dd * qd^age and Q/dd * qr^age (both positive)
+CompOf(v, which) == IF which = "pos" THEN {t \in v : t.b = "qd"}
+                    ELSE {[t EXCEPT !.m = -t.m] : t \in {u \in v : u.b = "qr"}}
+ACompAtElem(as, e, tau, which) ==
+  LET cf == as.cf
+      D == cf.dtk
+      b == Clamp(tau, 0, cf.dly)
+      k == NewerK(b, D)
+      vs == IF OnGrid(b, D, cf.tol2) THEN {CompOf(CurAgo(as, RoundDiv(b, D), e), which)}
+            ELSE {Decay(CompOf(CurAgo(as, k + 1, e), which), AElapsed(b, D))}
+  IN IF cf.cob = "none" \/ InTol(tau, b, cf.tol2) THEN vs ELSE {OBCur}
+
 ASpkAtElem(as, e, tau) ==
   LET cf == as.cf
       D == cf.dtk
@@ -236,6 +261,11 @@ SAApply(as, o) ==
     [] o.a = "spike_at"   -> IF Len(o.sel) # E THEN Err(as, "RuntimeError")
                              ELSE {Out(as, [t |-> "spk", v |-> c]) :
                                       c \in SeqProd([e \in 1..E |-> ASpkAtElem(as, e, o.sel[e])])}
+    [] o.a \in {"pos_at", "neg_at"} ->
+                             IF Len(o.sel) # E THEN Err(as, "RuntimeError")
+                             ELSE {Out(as, [t |-> "cur", v |-> c]) :
+                                      c \in SeqProd([e \in 1..E |-> ACompAtElem(as, e, o.sel[e],
+                                                                                 IF o.a = "pos_at" THEN "pos" ELSE "neg")])}
 
 (***************************************************************************)
 (* Correspondence                                                          *)
